@@ -418,6 +418,19 @@ def main():
             except Exception as e:
                 one['crash'] = type(e).__name__ + ': ' + str(e)[:120]
             rec['continued'].append(one)
+        # the same submission on a report of its own (the global report holds another program): the submission searched is that
+        # report's
+        if case['patterns']:
+            from pedal.core.report import Report as _Report
+            from pedal.core.commands import contextualize_report as _ctx
+            own = _Report()
+            _ctx(case['program'], report=own)
+            _ctx('zz_other_submission = 1\n')          # the global report moves on to another submission
+            try:
+                ms = find_matches(case['patterns'][0], report=own)
+                rec['own_report'] = {'n': len(ms), 'bindings': [bindings(m) for m in ms]}
+            except Exception as e:
+                rec['own_report'] = {'crash': type(e).__name__ + ': ' + str(e)[:120]}
         rec['seconds'] = round(_time.time() - _t0, 2)
         out.append(rec)
     json.dump(out, open(sys.argv[1], 'w'))
